@@ -35,13 +35,22 @@ import (
 	"github.com/attestantio/go-eth2-client/spec/capella"
 	"github.com/attestantio/go-eth2-client/spec/deneb"
 	"github.com/attestantio/go-eth2-client/spec/phase0"
+	vouchmock "github.com/attestantio/vouch/mock"
+	mockaccountmanager "github.com/attestantio/vouch/services/accountmanager/mock"
+	mockattestationaggregator "github.com/attestantio/vouch/services/attestationaggregator/mock"
 	"github.com/attestantio/vouch/services/attester"
 	"github.com/attestantio/vouch/services/beaconblockproposer"
 	standardproposer "github.com/attestantio/vouch/services/beaconblockproposer/standard"
+	mockbeaconcommitteesubscriber "github.com/attestantio/vouch/services/beaconcommitteesubscriber/mock"
 	"github.com/attestantio/vouch/services/blockrelay"
+	"github.com/attestantio/vouch/services/cache"
+	mockcache "github.com/attestantio/vouch/services/cache/mock"
 	standardcache "github.com/attestantio/vouch/services/cache/standard"
+	standardcontroller "github.com/attestantio/vouch/services/controller/standard"
 	dynamicgraffiti "github.com/attestantio/vouch/services/graffitiprovider/dynamic"
 	nullmetrics "github.com/attestantio/vouch/services/metrics/null"
+	mockproposalpreparer "github.com/attestantio/vouch/services/proposalpreparer/mock"
+	"github.com/attestantio/vouch/services/scheduler/advanced"
 	bpbest "github.com/attestantio/vouch/strategies/beaconblockproposal/best"
 	bidbest "github.com/attestantio/vouch/strategies/builderbid/best"
 	biddeadline "github.com/attestantio/vouch/strategies/builderbid/deadline"
@@ -2121,6 +2130,55 @@ func c16IncompleteUnits(_ string) []hx.Unit {
 				defer w.cancel()
 				mc.Sleep(int64(3 * c15SlotDur))
 				st.outcome = fmt.Sprintf("messaged-slots=%d", len(w.rec.calls))
+			})
+		}))
+	}
+	// a specification without the Altair constants (a chain that has not scheduled Altair): the controller says it does
+	// not handle Altair and carries on; then the chain reorganises (a head event with a changed current dependent root)
+	{
+		st := &c16State{fam: "incomplete/spec"}
+		units = append(units, c16Unit("C16/incomplete/spec-without-altair-constants+reorg", 10*time.Minute, st, func() {
+			st.nontriv = true
+			st.input = "beacon node specification without EPOCHS_PER_SYNC_COMMITTEE_PERIOD / ALTAIR_FORK_EPOCH, then a head event with a changed current dependent root"
+			st.call(func() {
+				ctx, cancel := mcontext.WithCancel(context.Background())
+				defer cancel()
+				sp := baseSpec(c03SlotDur, c03SPE)
+				for _, k := range []string{"EPOCHS_PER_SYNC_COMMITTEE_PERIOD", "ALTAIR_FORK_EPOCH", "BELLATRIX_FORK_EPOCH", "CAPELLA_FORK_EPOCH", "DENEB_FORK_EPOCH", "SYNC_COMMITTEE_SIZE", "SYNC_COMMITTEE_SUBNET_COUNT", "TARGET_AGGREGATORS_PER_SYNC_SUBCOMMITTEE"} {
+					delete(sp, k)
+				}
+				ct := newChainTime(-(int64(2*c03SPE) * int64(c03SlotDur)), c03SlotDur, c03SPE)
+				sched, err := advanced.New(ctx, advanced.WithLogLevel(zerolog.Disabled), advanced.WithMonitor(&nullmetrics.Service{}))
+				must(err)
+				ev := &eventsProvider{}
+				w := &c03World{attKinds: [2]string{"E", "E"}, propKinds: [2]string{"A", "A"}, reorgAt: -1}
+				byIndex := map[phase0.ValidatorIndex]*hAccount{}
+				for i := 1; i <= 3; i++ {
+					byIndex[phase0.ValidatorIndex(i)] = newAccount("W", fmt.Sprintf("v%d", i), byte(i))
+				}
+				_, err = standardcontroller.New(ctx,
+					standardcontroller.WithLogLevel(zerolog.Disabled), standardcontroller.WithMonitor(nullmetrics.New()),
+					standardcontroller.WithSpecProvider(&specProvider{m: sp}), standardcontroller.WithChainTimeService(ct),
+					standardcontroller.WithProposerDutiesProvider(w), standardcontroller.WithAttesterDutiesProvider(w),
+					standardcontroller.WithSyncCommitteeDutiesProvider(vouchmock.NewSyncCommitteeDutiesProvider()), standardcontroller.WithEventsProvider(ev),
+					standardcontroller.WithValidatingAccountsProvider(&accountsTable{byIndex: byIndex}), standardcontroller.WithProposalsPreparer(mockproposalpreparer.New()),
+					standardcontroller.WithScheduler(sched), standardcontroller.WithAttester(w), standardcontroller.WithBeaconBlockProposer(w),
+					standardcontroller.WithBeaconCommitteeSubscriber(mockbeaconcommitteesubscriber.New()), standardcontroller.WithAttestationAggregator(mockattestationaggregator.New()),
+					standardcontroller.WithAccountsRefresher(mockaccountmanager.NewRefresher()),
+					standardcontroller.WithBlockToSlotSetter(mockcache.New(map[phase0.Root]phase0.Slot{}).(cache.BlockRootToSlotSetter)),
+					standardcontroller.WithBeaconBlockHeadersProvider(vouchmock.NewBeaconBlockHeadersProvider()), standardcontroller.WithSignedBeaconBlockProvider(vouchmock.NewSignedBeaconBlockProvider()),
+					standardcontroller.WithMaxAttestationDelay(c03Delay), standardcontroller.WithAttestationAggregationDelay(8*time.Second))
+				if err != nil {
+					st.outcome = "controller refuses the specification"
+					return
+				}
+				for i, cur := range []byte{0x20, 0x60} {
+					mc.Sleep(int64(i)*int64(c03SlotDur) + int64(time.Second) - mc.Now())
+					s := phase0.Slot(2*c03SPE + uint64(i))
+					ev.deliver("head", &apiv1.HeadEvent{Slot: s, Block: root(byte(s)), PreviousDutyDependentRoot: root(0x10), CurrentDutyDependentRoot: root(cur)})
+				}
+				mc.Sleep(int64(2 * c03SlotDur))
+				st.outcome = "survived the reorg"
 			})
 		}))
 	}
